@@ -36,7 +36,7 @@ def model_check(module, cfg_text, scratch, tag, workers=4, timeout=1500, xmx='6g
     cfg = os.path.join(scratch, tag + '.cfg')
     with open(cfg, 'w') as f:
         f.write(cfg_text)
-    cmd = _java(xmx, '-XX:+UseParallelGC', os.path.join(scratch, 'jtmp')) + ['-workers', str(workers), '-metadir', md, '-config', cfg] + list(extra_args) + [module + '.tla']
+    cmd = _java(xmx, '-XX:+UseParallelGC', os.path.join(scratch, 'jtmp')) + ['-workers', str(workers), '-noGenerateSpecTE', '-metadir', md, '-config', cfg] + list(extra_args) + [module + '.tla']
     t0 = time.time()
     try:
         p = subprocess.run(cmd, cwd=SPEC, stdout=subprocess.PIPE, stderr=subprocess.STDOUT,
@@ -71,7 +71,7 @@ def validate_trace(module, trace_path, scratch, tag, timeout=1800, xmx='3g', cfg
     md = os.path.join(scratch, 'md_' + tag)
     os.makedirs(md, exist_ok=True)
     cfg = os.path.join(SPEC, (cfg_name or module) + '.cfg')
-    cmd = _java(xmx, tmpdir=os.path.join(scratch, 'jtmp')) + ['-workers', '1', '-metadir', md, '-config', cfg, module + '.tla']
+    cmd = _java(xmx, tmpdir=os.path.join(scratch, 'jtmp')) + ['-workers', '1', '-noGenerateSpecTE', '-metadir', md, '-config', cfg, module + '.tla']
     env = dict(os.environ)
     env['TRACE'] = trace_path
     if env_extra:
